@@ -56,6 +56,8 @@ type World struct {
 	JMode   string
 	InTx    bool
 	Commits int
+	// OnCommit is called after every refresh of the reference snapshot.
+	OnCommit func()
 }
 
 // New creates the database file with drawn page size / auto_vacuum / journal mode.
@@ -191,6 +193,9 @@ func (w *World) Refresh() {
 		fmt.Fprintf(h, "M%s/%s/%d;", m.Type, m.Name, m.Rootpage)
 	}
 	w.C.Log.Add("O", "snapshot", "v%d tables=%d rows=%d pages=%d free=%d content=%x", w.Version, len(s.Tables), nrows, s.PragmaInt("page_count"), s.PragmaInt("freelist_count"), h.Sum64())
+	if w.OnCommit != nil {
+		w.OnCommit()
+	}
 }
 
 func (w *World) newName(prefix string) string {
